@@ -452,6 +452,17 @@ def _variant_prefix(v):
     return None
 
 
+def classify_full(features, res, base_classes, v):
+    """classify(), and a class attributed to additional_types is re-attributed to the extension / order
+    variant when the same document without additional_types shows it as well."""
+    cls = classify(res, base_classes, v)
+    if cls.startswith("additional-types:") and v["additional"]:
+        v2 = dict(v, additional=None)
+        if any(r[0] == res[0] for r in evaluate(features, v2, None)):
+            return classify(res, base_classes, v2)
+    return cls
+
+
 def classify(res, base_classes, v):
     """A class that the plain document of the same model does not show is attributed to the variant.
 
@@ -642,7 +653,7 @@ def check_case(case, st):
         if st.out_of_time():
             break
         for res in evaluate(case["features"], v, st):
-            out.append((classify(res, base_classes, v), {"kind": "valid", "features": case["features"], "variant": v}, res[1]))
+            out.append((classify_full(case["features"], res, base_classes, v), {"kind": "valid", "features": case["features"], "variant": v}, res[1]))
     return out
 
 
@@ -650,7 +661,7 @@ def replay(witness):
     if witness["kind"] == "invalid":
         return evaluate_invalid(witness["label"], witness["texts"], None)
     base_classes = {r[0] for r in evaluate(witness["features"], BASELINE, None)}
-    return [(classify(res, base_classes, witness["variant"]), res[1]) for res in evaluate(witness["features"], witness["variant"], None)]
+    return [(classify_full(witness["features"], res, base_classes, witness["variant"]), res[1]) for res in evaluate(witness["features"], witness["variant"], None)]
 
 
 def selftest():
